@@ -213,6 +213,23 @@ fn interpreted_strategy() -> BoxedStrategy<DeclCase> {
         .boxed()
 }
 
+/// a value of one of the recursive declarations nested `depth` levels
+fn deep_value(name: &str, depth: usize) -> Val {
+    let mut v = match name {
+        "RecTree" => Val::Rec(vec![Val::str("leaf"), Val::Seq(vec![])]),
+        "RecList" => Val::Rec(vec![Val::Int(0), Val::None]),
+        _ => Val::Variant(0, vec![Val::Int(1)]),
+    };
+    for k in 0..depth {
+        v = match name {
+            "RecTree" => Val::Rec(vec![Val::str("n"), Val::Seq(vec![v, Val::Rec(vec![Val::str("twig"), Val::Seq(vec![])])])]),
+            "RecList" => Val::Rec(vec![Val::Int((k % 200) as i128), Val::some(v)]),
+            _ => Val::Variant(1, vec![v, Val::None]),
+        };
+    }
+    v
+}
+
 pub fn run_c02(cx: &Cx) -> PropResult {
     let all = batch().all();
     let per_decl = cx.n(1_000, 20_000);
@@ -240,7 +257,24 @@ pub fn run_c02(cx: &Cx) -> PropResult {
             acc.bump("compiled_declarations", 1);
         }
         let strat = interpreted_strategy();
-        drive(tag_seed(derive_seed(cx.seed, cx.prop, shard as u64, 1), 1), &strat, n_interp, acc, &|c: &DeclCase| to_json(c), &mut |c, a, r| check_c02(c, a, r));
+        if drive(tag_seed(derive_seed(cx.seed, cx.prop, shard as u64, 1), 1), &strat, n_interp, acc, &|c: &DeclCase| to_json(c), &mut |c, a, r| check_c02(c, a, r)) {
+            return;
+        }
+        // deep values of the recursive declarations: RecTree is an evolved record, so every level is a chunk inside a
+        // chunk (depths around 128 and 256, far below what the stack allows)
+        if shard == 0 {
+            for d in all.iter().filter(|d| ["RecTree", "RecList", "RecEnum"].contains(&d.name.as_str()) && compiled_ok(d)) {
+                for depth in [64usize, 127, 128, 129, 200, 255, 256, 257, 400] {
+                    let v = deep_value(&d.name, depth);
+                    let c = DeclCase { compiled: Some(d.name.clone()), ty: Ty::Adt(d.clone()), val: v, forms: vec![] };
+                    acc.bump("deep_values_of_recursive_declarations", 1);
+                    if let Verdict::Fail(e) = check_c02(&c, acc, true) {
+                        acc.violation(format!("{} nested {depth} deep: {}", d.name, e.chars().take(300).collect::<String>()), json!({"deep": {"decl": d.name, "depth": depth}}));
+                        return;
+                    }
+                }
+            }
+        }
     });
     let programs = all.len() as u64;
     let comparisons = acc.extra.get("comparisons_with_model").copied().unwrap_or(0);
@@ -260,6 +294,14 @@ pub fn replay_c02(case: &Value) -> Verdict {
         return match vcat::compiled::EXCLUDED.iter().find(|(x, _)| *x == n) {
             Some((_, why)) => Verdict::Fail(format!("the derive macro does not compile declaration {n}: {why}")),
             None => Verdict::Pass,
+        };
+    }
+    if let Some(dp) = case.get("deep") {
+        let name = dp["decl"].as_str().unwrap_or("RecTree").to_string();
+        let depth = dp["depth"].as_u64().unwrap_or(0) as usize;
+        return match batch().all().into_iter().find(|d| d.name == name) {
+            Some(d) => check_c02(&DeclCase { compiled: Some(name.clone()), ty: Ty::Adt(d), val: deep_value(&name, depth), forms: vec![] }, &mut Acc::new(), false),
+            None => Verdict::Skip,
         };
     }
     let c: DeclCase = serde_json::from_value(case.clone()).expect("replay case");
